@@ -615,6 +615,72 @@ def U_case_if(small):
                         yield pre + (("if", ((c, b1),), b2),) + post
 
 
+def U_block2():
+    """one block nested in another: every inner block kind (optional, loop with a plain / conditional exit, foreach, try with every reason list,
+    case with / without else, if with / without else) over a one-statement body, with <= 1 statement before and after it inside every outer block kind,
+    and <= 1 statement after the outer block.  `n = 1; "k";` in front makes the conditions true and gives every block a consumed byte before it."""
+    AB = ("re", RX_ATOMS["[ab]"])
+    n1 = ("set", "n", ("bin", "+", ("var", "n"), ("num", 1)))
+    T = [("match", lit("a")), ("match", ("re", q("a", "+"))), ("append", "s", AB), ("hook", "h"), n1, ("match", lit("b"))]
+    Y = atom("y", b"y")
+
+    def inners():
+        for t in T:
+            yield ("optional", (t,))
+            yield ("loop", None, (t, ("break", None)))
+            yield ("loop", None, (t, ("optional", (("match", lit(";")), ("break", None)))))
+            yield ("foreach", (t,), (("hook", "g"),))
+            for hb in ((), (("hook", "g"),), (("match", lit("x")),)):
+                for opts in (None, ("nomatch",), ("outofspace",)):
+                    yield ("try", (t,), opts, hb)
+            yield ("case", False, ((None, (lit("a"),), (t,)), (None, (lit("b"),), ()), (None, ("else",), ())))
+            yield ("case", False, ((None, (lit("x"),), (t,)), (None, (("re", q(Y, "+")),), (("hook", "g"),))))
+            yield ("if", ((CONDS[0], (t,)),), None)
+            yield ("if", ((CONDS[0], (t,)),), (("match", lit("x")),))
+
+    def outers(body):
+        yield ("optional", body)
+        yield ("loop", None, body + (("break", None),))
+        yield ("loop", None, body + (("optional", (("match", lit("!")), ("break", None))),))
+        yield ("foreach", body, (n1,))
+        yield ("try", body, None, (("hook", "g"),))
+        yield ("try", body, ("nomatch",), (("match", lit("z")),))
+        yield ("try", body, ("outofspace",), (("delete", "s"),))
+        yield ("case", False, ((None, (lit("p"),), body), (None, (lit("q"),), (("hook", "g"),))))
+        yield ("case", False, ((None, (lit("p"),), body), (None, ("else",), ())))
+        yield ("if", ((CONDS[0], body),), None)
+        yield ("if", ((CONDS[0], (("match", lit("w")),)),), body)
+
+    for inner in inners():
+        for pre_in in ((), (("match", lit("c")),)):
+            for post_in in ((), (("match", lit("d")),), (("hook", "g"),)):
+                body = pre_in + (inner,) + post_in
+                for outer in outers(body):
+                    for post in ((), (("match", lit("e")),), (("hook", "h"),)):
+                        yield (("set", "n", ("num", 1)), ("match", lit("k")), outer) + post
+
+
+def doc_error_optional(stmts):
+    """the reference: "It is an error to have anything that does not match as the first statement in an optional-statement".  nmfu does not
+    diagnose all of these; what such an optional does (is a try whose handler covers the mismatch "entered" by a byte its body cannot take? a case
+    with an else clause?) is not defined by the procedural reading, so C01 does not judge programs that contain one."""
+    def first_ok(body):
+        if not body:
+            return False
+        st = body[0]
+        k = st[0]
+        if k in ("match", "append", "wait"):
+            return True
+        if k == "case":
+            return not any("else" in pats for _, pats, _ in st[2])
+        if k in ("loop",):
+            return first_ok(st[2])
+        if k == "foreach":
+            return first_ok(st[1])
+        return False
+    return any(st[0] == "optional" and not first_ok(st[1]) for st in walk(tuple(stmts)))
+
+
 def enumerate_programs(level):
     """level 1: leaf sequences <= 2 (full menu); level 2: + one block; deterministic canonical order"""
     yield from U_leaf(2, True)
@@ -622,6 +688,10 @@ def enumerate_programs(level):
         yield from U_block1(2)
     if level >= 3:
         yield from U_leaf(3, False)
+
+
+def enumerate_nested():
+    yield from U_block2()
 
 
 # hand-written ASTs for shapes the generator does not reach (conditional / named breaks, nesting, yields)
